@@ -13,6 +13,8 @@ Evaluators
              index orders: value, gradient, bounds, draws
   posterior  Posterior(likelihood, prior) against the sum of its parts (real classes on joint layouts; exact stubs)
   guesses    generate_initial_guesses on all orderings of <=5 scripted draws x all n_guesses<=prior_samples
+  guesses_big  the same with prior_samples in {200, 1000} (stride-permuted quantile draws) x n_guesses in {1, 2, 50, 100, 199, 200, 300, 999, 1000}:
+             the n_guesses best draws, in increasing cost (guesses-big/not-in-increasing-cost, ../not-the-best-draws, ../guess-is-not-a-prior-draw, ...)
 """
 import itertools
 
@@ -733,7 +735,102 @@ def ev_guesses(case):
     return {"fails": fails[:20], "n": nev, "tags": tags, "sample": last}
 
 
-EVALUATORS = {"class": ev_class, "quad": ev_quad, "layout": ev_layout, "joint": ev_joint, "posterior": ev_posterior, "guesses": ev_guesses}
+GUESS_BIG_NG = [1, 2, 50, 100, 199, 200, 300, 999, 1000]
+GUESS_STRIDES = {200: [37, 113, 71, 9], 1000: [373, 617, 89, 7]}  # coprime with prior_samples: j -> (j * stride + offset) % m is a permutation
+GUESS_TIE = 1e-9  # costs closer than this (relative to 1 + |cost|) are a tie: either order is accepted
+
+
+def ev_guesses_big(case):
+    """generate_initial_guesses with hundreds of prior draws: the draws are the m quantiles (k + 1/2) / m in a stride-permuted order
+    (each variable of a joint prior with its own stride); for every listed n_guesses the result must be the n_guesses best draws,
+    in increasing cost."""
+    import inference.priors as P
+    import inference.likelihoods as L
+    from inference.posterior import Posterior
+    import mpmath as mp
+    from mc.ref import c06_ref as R
+    from mc.ref import c05_ref as R5
+
+    mp.mp.dps = 30
+    name, seed, m = case["prior"], case["seed"], case["prior_samples"]
+    with lib("prior-construct"):
+        pr, laws = guess_priors(P, name, seed)
+    nvar = len(laws)
+    centre = [0.37 + 0.61 * i for i in range(nvar)]
+    ysig = [0.8 + 0.5 * i for i in range(nvar)]
+    F = lambda th: np.asarray(th, dtype=float).copy()  # noqa: E731
+    with lib("likelihood-construct"):
+        lik = L.GaussianLikelihood(np.array(centre), np.array(ysig), forward_model=F)
+    strides, off = case["strides"], case["offset"]
+    for st in strides[:nvar]:
+        if np.gcd(st, m) != 1:
+            raise HarnessError(f"stride {st} is not coprime with {m}")
+    full = [((((j * strides[v] + off * (v + 1)) % m) + 0.5) / m) for j in range(m) for v in range(nvar)]
+    cost_cache = {}
+
+    def ref_cost(k):
+        if k not in cost_cache:
+            if any(R.position(*laws[i], k[i]) == "out" for i in range(nvar)):
+                raise HarnessError(f"scripted draw {k} outside the prior support")
+            lv, _ = R5.total("gaussian", centre, list(k), ysig)
+            cost_cache[k] = float(-(lv + sum((R.logpdf(*laws[i], k[i])[0] for i in range(nvar)), mp.mpf(0))))
+        return cost_cache[k]
+
+    fails, tags, nev, seen = [], set(), 0, set()
+    last = None
+
+    def add(key, what, **kw):
+        if key not in seen:
+            seen.add(key)
+            fails.append(fail(key, what, **kw))
+
+    for ng in case["n_guesses"]:
+        rp = RecordingPrior(pr)
+        with lib("Posterior-construct"):
+            post = Posterior(likelihood=lik, prior=rp)
+        with R.scripted_prior_rng(full):
+            with lib("generate_initial_guesses"):
+                out = post.generate_initial_guesses(n_guesses=ng, prior_samples=m)
+        nev += 1
+        det = dict(prior=name, n_guesses=ng, prior_samples=m, strides=strides[:nvar], offset=off)
+        draws = rp.draws
+        if len(draws) != m:
+            add("guesses-big/number-of-prior-draws", f"{len(draws)} draws taken for prior_samples={m}", **det)
+            continue
+        try:
+            outl = [np.asarray(o, dtype=float).reshape(-1) for o in out]
+        except Exception:
+            add("guesses-big/result-not-a-sequence-of-arrays", f"{type(out).__name__}", **det)
+            continue
+        if len(outl) != ng or any(o.shape != (nvar,) for o in outl):
+            add("guesses-big/result-shape", f"{len(outl)} guesses of shapes {sorted({o.shape for o in outl})} for n_guesses={ng}, {nvar} variables", **det)
+            continue
+        dk = [tuple(d.tolist()) for d in draws]
+        ok_ = [tuple(o.tolist()) for o in outl]
+        if len(set(dk)) != m:
+            raise HarnessError("scripted draws are not distinct")
+        if not set(ok_) <= set(dk) or len(set(ok_)) != ng:
+            add("guesses-big/guess-is-not-a-prior-draw", f"{ng - len(set(ok_) & set(dk))} of the {ng} returned guesses are not (distinct) prior draws", **det)
+            continue
+        dcost = np.sort(np.array([ref_cost(d) for d in dk]))
+        ocost = np.array([ref_cost(o) for o in ok_])
+        tie = GUESS_TIE * (1.0 + np.abs(dcost[:ng]))
+        down = np.nonzero(ocost[1:] < ocost[:-1] - tie[1:])[0]
+        if down.size:
+            i = int(down[0])
+            add("guesses-big/not-in-increasing-cost",
+                f"n_guesses={ng} of prior_samples={m}: guess {i} has cost {ocost[i]!r} but guess {i + 1} has the lower cost {ocost[i + 1]!r} ({down.size} descents in the returned list; first guess is "
+                f"{'the' if abs(ocost[0] - dcost[0]) <= tie[0] else 'NOT the'} best draw)", costs_head=ocost[: min(ng, 12)].tolist(), **det)
+        if np.any(np.abs(np.sort(ocost) - dcost[:ng]) > tie):
+            add("guesses-big/not-the-best-draws", f"n_guesses={ng} of prior_samples={m}: the sorted costs of the returned guesses differ from the {ng} lowest draw costs (largest returned {float(ocost.max())!r}, "
+                f"{ng}-th lowest {float(dcost[ng - 1])!r})", **det)
+        first_best = int(np.argmin([ref_cost(d) for d in dk]))
+        tags.add(f"guesses-big {name} m={m} ng={ng} best-draw-is-number={'first' if first_best == 0 else ('last' if first_best == m - 1 else 'inner')}")
+        last = {"prior": name, "n_guesses": ng, "prior_samples": m, "lowest_costs": dcost[:3].tolist(), "returned_costs_head": ocost[:3].tolist()}
+    return {"fails": fails[:20], "n": nev, "tags": tags, "sample": last}
+
+
+EVALUATORS = {"guesses_big": ev_guesses_big, "class": ev_class, "quad": ev_quad, "layout": ev_layout, "joint": ev_joint, "posterior": ev_posterior, "guesses": ev_guesses}
 
 
 def run(ck):
@@ -772,16 +869,27 @@ def run(ck):
         for b in range(0, len(scripts), 60):
             gcases.append({"prior": name, "seed": seed, "scripts": scripts[b : b + 60]})
     ck.run_cases("guesses", gcases, chunk=1)
+    # ---- initial guesses out of hundreds of draws: every listed n_guesses <= prior_samples
+    bcases = []
+    for pi, name in enumerate(("G", "E", "U", "J:G1,U0", "J:E1,G0")):
+        for m in (200, 1000):
+            st = GUESS_STRIDES[m]
+            r = (pi + seed) % len(st)
+            bcases.append({"prior": name, "seed": seed, "prior_samples": m, "n_guesses": [g for g in GUESS_BIG_NG if g <= m], "strides": st[r:] + st[:r], "offset": (3 * seed + pi) % m})
+    ck.run_cases("guesses_big", bcases, chunk=1)
     ck.rule = (
         "class: hyper-parameter lattice x theta lattice (interior / support edge / outside incl. one ulp either side) x 5-6 input forms x 5 quantiles; "
         "layout: every ordered selection of k<=4 of 4 indices per class; joint: every permutation of n<=%d variables cut into <=3 consecutive blocks "
         "(= all assignments, all component orders, all index orders) x 3^k type assignments (%d configurations), each at 3 interior vectors, every "
         "single-variable excursion outside the support, 5 constant-quantile draws and 2 distinct-quantile draws; posterior: 3 likelihoods x all n=2,3 "
         "joint configurations + exact stubs; guesses: all orderings of <=5 distinct scripted quantiles and all tied sequences over 3 quantiles x all "
-        "n_guesses<=prior_samples x 5 priors.  Distinct = (evaluator, n, k, merged, index order sorted?, theta situation) etc."
+        "n_guesses<=prior_samples x 5 priors; guesses_big: prior_samples in {200, 1000} x every n_guesses in {1, 2, 50, 100, 199, 200, 300, 999, 1000} (<= prior_samples) x 5 priors, the draws being "
+        "the quantiles (k + 1/2)/prior_samples in a stride-permuted order (strides coprime with prior_samples, one per variable of a joint prior, rotated with the seed): the result is the n_guesses "
+        "best draws, in increasing cost.  Distinct = (evaluator, n, k, merged, index order sorted?, theta situation) etc."
     ) % (nmax, nconf)
     ck.assume("hyper-parameters and theta values are the listed finite lattices; joint hyper-parameters are distinct per (type, index) so that misrouting is visible")
     ck.assume("the generator seam replaces inference.priors.rng; a draw is 'distributed according to the density' iff F(draw at quantile u) = u on the alphabet {.01,.1,.5,.9,.99} (numpy's own transformation of uniform bits into variates is trusted)")
+    ck.assume("guesses_big: costs of two draws closer than 1e-9 (1 + |cost|) are treated as a tie (either order accepted; the library orders by its double-precision cost)")
     ck.assume("outside the support a value <= -1e99 (or -inf) is accepted; on a finite edge of the support (null set) either convention is accepted; the gradient is compared only strictly inside the support")
     ck.assume("for a stand-alone component on a subset of indices, gradient/sample of length k in the listed index order (or full length by index for the gradient) are both accepted")
     ck.extra["joint_configurations"] = nconf
